@@ -116,6 +116,7 @@ type State struct {
 	freshID map[string]bool // ids (by term text) allocated by the function under verification
 	trace   []string
 	panicked bool
+	pcSet   map[string]bool
 }
 
 func (s *State) clone() *State {
@@ -186,5 +187,16 @@ func (s *State) assume(t *Term) {
 		}
 		return
 	}
+	key := t.String()
+	if s.pcSet == nil {
+		s.pcSet = map[string]bool{}
+		for _, p := range s.pc {
+			s.pcSet[p.String()] = true
+		}
+	}
+	if s.pcSet[key] {
+		return
+	}
+	s.pcSet[key] = true
 	s.pc = append(s.pc, t)
 }
